@@ -55,6 +55,12 @@ ObsOK(st, o) ==
     /\ Len(o.orev) = Len(st.os) /\ Len(o.olen) = Len(st.os)
     /\ \A s \in DOMAIN st.os : o.orev[s] = Reverse(st.os[s]) /\ o.olen[s] = Len(st.os[s])
 
+\* a call refused by an assertion may as well be refused with ValueError; hash() of two objects that need not be the
+\* same dict key is not specified
+ResMatch(c, mr, er) == \/ REq(mr, er)
+                       \/ (mr.t = "err" /\ er.t = "err" /\ mr.x = "Refused" /\ er.x \in {"Refused", "ValueError"})
+                       \/ (c.op = "shash" /\ mr.t = "bool" /\ er.t = "bool" /\ mr.x = 0)
+
 \* the as-built result R("corrupt", y) is a call that returned node y as if nothing was wrong
 KnownMatch(kr, er) == \/ (kr.t = "corrupt" /\ er.t = "node" /\ er.x = kr.x)
                       \/ (kr.t = "broken" /\ er.t = "broken")
@@ -64,8 +70,11 @@ TStep == /\ tl <= Len(Tr)
                 c  == CallOf(e)
             IN /\ Chk(InDomain(ust, c))
                /\ LET so == UCall(ust, StmtFlags, c) IN
-                  IF REq(so.r, e.res) /\ ObsOK(so.st, e.obs)
+                  IF ResMatch(c, so.r, e.res) /\ ObsOK(so.st, e.obs)
                   THEN /\ ust' = so.st /\ tl' = tl + 1
+                       /\ (tl' = Len(Tr) + 1 => PrintT(<<"ACCEPTED", tid>>))
+                  ELSE IF c.op \in Piecewise /\ so.r.t = "err" /\ ResMatch(c, so.r, e.res) /\ ObsOK(ust, e.obs)
+                  THEN /\ ust' = ust /\ tl' = tl + 1           \* a failed extend() that added nothing is accepted as well
                        /\ (tl' = Len(Tr) + 1 => PrintT(<<"ACCEPTED", tid>>))
                   ELSE LET ko == UCall(ust, Flags(KnownSole, KnownEmpick), c) IN
                        /\ Chk(KnownMatch(ko.r, e.res))
